@@ -1761,7 +1761,7 @@ func seqnoFanOut(c *Ctx, id string, root *ssa.Function) {
 			noInline[fname(fn)] = true
 		}
 	}
-	h := &Harness{Fn: root, Bools: []string{aware, "hasCollectionsSupport"}, Choices: map[string]int{"nodes": 4, "collections": 2, "fails": nFail},
+	h := &Harness{Fn: root, Bools: []string{aware, "hasCollectionsSupport"}, Choices: map[string]int{"nodes": c.bound(4, 7), "collections": c.bound(2, 4), "fails": nFail},
 		Quiet: quietLog, MaxSteps: 60000, Concrete: true, NoInline: noInline,
 		Oracle: func(st *State, name string, args []AV, res *types.Tuple) ([]AV, bool) {
 			errOr := func(which int, sym string) AV {
@@ -2369,7 +2369,7 @@ func collectionIDsExact(c *Ctx, id string) {
 	c.need(fn != nil && one != nil && len(fn.Params) == 3, id, "client.GetCollectionIDs(scope, names) / getCollectionID")
 	c.see(fn)
 	namesP := fn.Params[2].Name()
-	for k := 0; k <= 2; k++ {
+	for k := 0; k <= c.bound(2, 5); k++ {
 		kk := k
 		h := &Harness{Fn: fn, Bools: []string{"hasCollectionsSupport"}, Choices: map[string]int{"failsAt": kk + 1}, Quiet: quietLog, MaxSteps: 20000, Concrete: true,
 			NoInline: map[string]bool{fname(one): true},
